@@ -20,7 +20,9 @@ CONSTANTS Configs,     \* e.g. {1, 2, 3}
           MaxSubmits,  \* bound on begun submissions (0 = unbounded)
           MaxFails,    \* bound on failing reload attempts (0 = unbounded)
           Variant,     \* "frr" | "k8s"
-          Rejects      \* BOOLEAN: submitter "u" may also make submissions that are rejected (REJ)
+          Rejects,     \* BOOLEAN: submitter "u" may also make submissions that are rejected (REJ)
+          Tampers,     \* BOOLEAN (k8s): the environment deletes / edits the cluster's object (DEL, EDIT)
+          MinFails     \* no reload attempt succeeds before this many have failed (long failure bursts)
 
 Submitters == {"u", "v"}
 
@@ -81,6 +83,7 @@ Fire ==
 Done(ok) ==
   /\ s.busy
   /\ ok \/ MaxFails = 0 \/ nfail < MaxFails
+  /\ ok => nfail >= MinFails
   /\ s' = BodyEnd(s, ok)
   /\ nfail' = IF ok \/ MaxFails = 0 THEN nfail ELSE nfail + 1
   /\ act' = Act("Done", "", s.inflight, ok, TRUE)
@@ -88,6 +91,7 @@ Done(ok) ==
 
 Next == \/ \E c \in Configs : Begin("u", c)
         \/ Rejects /\ Begin("u", REJ)
+        \/ Tampers /\ Variant = "k8s" /\ \E x \in {DEL, EDIT} : Begin("v", x)
         \/ Begin("v", OLD)
         \/ \E p \in Submitters : Effect(p)
         \/ Tick
@@ -107,8 +111,8 @@ FairSpec == /\ Spec
 (* Role A *)
 
 TypeOK == /\ s.config \in Configs \cup {NONE}
-          /\ s.lastApplied \in Configs \cup {NONE}
-          /\ \A p \in Submitters : pend[p] \in Configs \cup {NONE, OLD, REJ}
+          /\ s.lastApplied \in Configs \cup {NONE, FOREIGN}
+          /\ \A p \in Submitters : pend[p] \in Configs \cup {NONE, OLD, REJ, DEL, EDIT}
 
 (* NeverOlder, Coalesce, IdenticalNoReload held at every reload so far      *)
 InvReloads == bad = {}
